@@ -1,0 +1,148 @@
+// Copyright (c) 2026 10X Genomics, Inc. All rights reserved.
+
+//go:build verif
+
+package syntax
+
+import (
+	"bytes"
+	"fmt"
+	"sort"
+	"strings"
+)
+
+// Targeted inputs for functions which collect the keys of a Go map, sort them
+// and then emit / search / accumulate in that order, for the external
+// verification harness (property C10): hand-built expressions with >= 12
+// entries whose contributions differ, and the output the sorted order gives.
+// This file is only compiled with `-tags verif`.
+
+// VerifC10SortProvocations returns, by site, a function which evaluates the
+// real code on a fixed input and the text it has to return if the keys are
+// visited in ascending order.
+func VerifC10SortProvocations() (run map[string]func() string, expect map[string]string, err error) {
+	_, _, ast, err := ParseSourceBytes([]byte(verifC10Src), "verif_c10.mro", nil, false)
+	if err != nil {
+		return nil, nil, err
+	}
+	lookup := &ast.TypeTable
+	keys := verifC10Keys(13)
+	sorted := append([]string(nil), keys...)
+	sort.Strings(sorted)
+	call := ast.Callables.Table["P"].(*Pipeline).Calls[0]
+	other := &CallStm{Id: "OTHER", DecId: "S"}
+	run = make(map[string]func() string)
+	expect = make(map[string]string)
+
+	// encodeMapSourceJson, MapExp branch: a merge over a literal map
+	{
+		over := &MapExp{Kind: KindMap, Value: make(map[string]Exp, len(keys))}
+		for i, k := range keys {
+			over.Value[k] = &IntExp{Value: int64(i)}
+		}
+		mg := &MergeExp{MergeOver: over, Value: &IntExp{Value: 7}}
+		name := "encodeMapSourceJson(merge over a literal map)"
+		run[name] = func() string {
+			var buf bytes.Buffer
+			if err := mg.EncodeJSON(&buf); err != nil {
+				return "ERR:" + err.Error()
+			}
+			return buf.String()
+		}
+		expect[name] = `{"merge_value":7,"merge_over":{"type":"map","keys":["` + strings.Join(sorted, `","`) + `"]}}`
+	}
+	// a reference which forks over `call` (found) or over another call only (not found)
+	ref := func(i int, forks bool) *RefExp {
+		r := &RefExp{Kind: KindCall, Id: fmt.Sprintf("ID.P.U%02d", i), OutputId: "o",
+			Forks: map[*CallStm]CollectionIndex{other: unknownIndex{}}}
+		if forks {
+			r.Forks[call] = unknownIndex{}
+		}
+		return r
+	}
+	// findMergeForkExpNode: a map literal; the entries of the three smallest
+	// keys do not fork over the call, all others do, each naming another node
+	{
+		m := &MapExp{Kind: KindMap, Value: make(map[string]Exp, len(keys))}
+		want := ""
+		for rank, k := range sorted {
+			m.Value[k] = &ArrayExp{Value: []Exp{&IntExp{Value: 1}, ref(rank, rank >= 3)}}
+			if rank == 3 {
+				want = ref(rank, true).Id
+			}
+		}
+		name := "findMergeForkExpNode(map literal)"
+		run[name] = func() string {
+			if r := findMergeForkExpNode(m, call); r != nil {
+				return r.Id
+			}
+			return "<nil>"
+		}
+		expect[name] = want
+	}
+	// findMergeForkNode: nothing in the value, the search goes through the
+	// inputs of the call in the order of the parameter names
+	{
+		node := &CallGraphStage{Fqid: "ID.P.S", call: call, Inputs: make(ResolvedBindingMap, len(keys))}
+		want := ""
+		for rank, k := range sorted {
+			node.Inputs[k] = &ResolvedBinding{Exp: ref(100+rank, rank >= 2 && rank != 4)}
+			if rank == 2 {
+				want = ref(100+rank, true).Id
+			}
+		}
+		node.Inputs[sorted[0]] = nil
+		name := "findMergeForkNode(inputs)"
+		run[name] = func() string {
+			if r := findMergeForkNode(&IntExp{Value: 3}, node); r != nil {
+				return r.Id
+			}
+			return "<nil>"
+		}
+		expect[name] = want
+	}
+	// MapExp.FindTypedRefs for a typed map: references, constants, and arrays
+	// holding a reference (an error which names the key, and which discards
+	// the references collected so far - so that the result depends on where
+	// in the order the failing entries come)
+	{
+		t := lookup.Get(TypeId{Tname: KindInt, MapDim: 1})
+		m := &MapExp{Kind: KindMap, Value: make(map[string]Exp, len(keys))}
+		var wantRefs, wantErrs []string
+		for rank, k := range sorted {
+			r := &RefExp{Kind: KindCall, Id: fmt.Sprintf("ID.P.R%02d", rank), OutputId: "o"}
+			switch {
+			case rank%4 == 1:
+				m.Value[k] = &IntExp{Value: int64(rank)}
+			case rank == 3 || rank == 7:
+				m.Value[k] = &ArrayExp{Value: []Exp{r}}
+				wantRefs = nil
+				wantErrs = append(wantErrs, "map key "+k)
+			default:
+				m.Value[k] = r
+				wantRefs = append(wantRefs, r.Id)
+			}
+		}
+		name := "MapExp.FindTypedRefs(typed map)"
+		run[name] = func() string {
+			list, err := m.FindTypedRefs(nil, t, lookup)
+			ids := make([]string, len(list))
+			for i, b := range list {
+				ids[i] = b.Exp.Id
+			}
+			var errKeys []string
+			for _, line := range strings.Split(verifErrText(err), "\n") {
+				if i := strings.Index(line, "map key "); i >= 0 {
+					key := line[i:]
+					if j := strings.Index(key, ":"); j >= 0 {
+						key = key[:j]
+					}
+					errKeys = append(errKeys, key)
+				}
+			}
+			return strings.Join(ids, " ") + " / " + strings.Join(errKeys, ", ")
+		}
+		expect[name] = strings.Join(wantRefs, " ") + " / " + strings.Join(wantErrs, ", ")
+	}
+	return run, expect, nil
+}
